@@ -150,6 +150,8 @@ def sPackInfo : SP SPack := do
       let s ← sRepeat n (sNumber "pack size")
       let id ← sByte "PackInfo property"
       pure (s, id)
+    -- digests of streams whose sizes are not given describe nothing (7-Zip's own reader waits for the size section)
+    else if id = 0x0A then sfail "pack digests without pack sizes"
     else pure ([], id) : SP (List Nat × Nat))
   if sizes.length ≠ n then sfail "pack sizes missing although NumPackStreams > 0" else
   let (crcs, id) ← (if id = 0x0A then do
